@@ -134,6 +134,25 @@ CHECKS['C10'] = dict(
          'Refusals are allowed and counted; a refused site must leave sites(). Both sides are also compared with the C01 oracle so common defects are attributed to C01.',
     note='Trusted: interpreter as reference for the original, vlib/oracle_round.py. One sign-of-zero finding (root cause F15) is excluded by construction and listed as open.')
 
+CHECKS['C02'] = dict(
+    category='exploration', design_ref='DESIGN.md §3 C02, §2.3',
+    technique='exhaustive small-source-format operand tuples x narrow/wide/fixed targets + Hypothesis double-rounding-directed operands vs exact-rational/algebraic operation reference rounded once',
+    text='For each of the 21 listed operations: exhaustive operand tuples over all members of a small IEEE source format (plus zeros, infinities, NaN) x target contexts '
+         'deliberately narrower/wider/fixed-point x 8 modes; fma on a reduced cube plus cancellation-directed triples; a Hypothesis layer with unrelated precisions, '
+         'mixed carriers incl. non-dyadic Fractions, and operands solved so the exact result sits next to a target breakpoint. The reference computes the exact value '
+         '(rationals; square/cube roots and hypot decided by integer comparisons of candidate^k with the radicand), applies IEEE special-value tables written from the '
+         'standard, and rounds once with the independent oracle; under REAL the result must be the exact value itself.',
+    note='Trusted: vlib/oracle_ops.py (self-tested against CPython binary64 arithmetic), vlib/oracle_round.py. Open choices (RTN cancellation sign, zero mod sign, copysign of NaN) accept sets; "not offered" combinations are counted.')
+
+CHECKS['C17'] = dict(
+    category='exploration', design_ref='DESIGN.md §3 C17',
+    technique='scripted-RNG enumeration of all 2^k draws per operand over every gap of small stochastic contexts vs exact count oracle',
+    text='Contexts of every family that supports random bits (k in {1,2,3,4,6} and all-bits, 8 base modes) x operands at j/2^(k+2) positions of every gap '
+         '(subnormal gaps, across 2^emin, last gap below maxval, negative values), endpoints and zeros x ALL 2^k scripted draws through the public rng= parameter: '
+         'every result is one of the two neighbours, representable operands are unchanged, the result is a function of (operand, draw), the number of draws that round '
+         'away equals frac*2^k rounded by the base mode, exactly one draw of the context\'s k is consumed per finite non-zero rounding; an op-level layer checks add/mul/div under stochastic contexts.',
+    note='Trusted: vlib/oracle_round.py for the base-mode rounding of the extra digits; scripted random.Random subclass records every getrandbits call.')
+
 NOT_YET = {}
 
 
